@@ -16,7 +16,8 @@ EXPLANATION = (
     "accepted stream's dest_host/dest_port/flow id come from the Connect payload's same-role fields; establish "
     "only replaces a Requested slot. Initial credit = advertised window is C03.R3/R4.")
 EXPLANATION_ADDED = '(R6) initial credit / advertised window roles (=C03.R3/R4); (R7) the handshake Acknowledge is queued before the stream is handed to the accept queue; (R8) the accept queue is sized by stream_buffer_size.'
-EXPLANATION = EXPLANATION + " Added while testing against seeded changes: " + EXPLANATION_ADDED
+EXPLANATION_ADDED2 = " R7 also requires the Acknowledge's queue-send failure to be propagated before the hand-off."
+EXPLANATION = EXPLANATION + " Added while testing against seeded changes: " + EXPLANATION_ADDED + EXPLANATION_ADDED2
 ASSUMPTIONS = ["rand produces arbitrary u32 values (collisions possible); RwLock write guard is exclusive"]
 NOT_DECIDED = "simultaneous-open races between the two endpoints (interleaving dependent)"
 THOROUGH_CONFIGS = ["mux-nodefault", "mux-nohash"]
